@@ -20,7 +20,9 @@ def setup():
         import re
         with open(os.path.join(common.LEAN_DIR, "lakefile.toml"), encoding="utf8") as f:
             exes = re.findall(r'^name = "(drv_[^"]+)"', f.read(), flags=re.M)
-        rc, out, err, dt = common.run(["lake", "build", "Barril"] + exes, timeout=7200)
+        import bridges
+        bridge_mods = sorted({m for ms in bridges.BRIDGES.values() for m in ms})
+        rc, out, err, dt = common.run(["lake", "build", "Barril"] + bridge_mods + exes, timeout=7200)
         sys.stdout.write((out + err)[-3000:])
         print("setup: lake build exit %d in %.0fs" % (rc, dt))
     return 0
